@@ -22,6 +22,7 @@ import (
 	"sync/atomic"
 	"time"
 
+	"github.com/getlantern/goexpr"
 	"github.com/getlantern/zenodb"
 )
 
@@ -401,6 +402,7 @@ func (c *jReplCase) normalize() {
 }
 
 type replRun struct {
+	whereEx  goexpr.Expr
 	c        *jReplCase
 	cl       *cluster
 	accepted []int // point index per accepted entry, in op order
@@ -456,6 +458,33 @@ func (rr *replRun) observeTid(n *cnode) ([]int64, error) {
 	return out, nil
 }
 
+// expectedT / observeTPoints: how many accepted points the generated table must reflect on this follower (the settle
+// condition has to cover table t as well: after a restart the two tables may be re-fed from different offsets)
+func (rr *replRun) expectedT(n *cnode, whereEx goexpr.Expr) int {
+	cnt := 0
+	for _, pi := range rr.accepted {
+		p := &rr.c.Points[pi]
+		if rr.cl.routedBy(p, rr.c.PartBy) == n.partition && (whereEx == nil || evalPred(whereEx, dimsBytemap(p))) {
+			cnt++
+		}
+	}
+	return cnt
+}
+
+func (rr *replRun) observeTPoints(n *cnode) int {
+	_, rows, err := runQuery(n.db, "SELECT _points FROM t GROUP BY _", true)
+	if err != nil {
+		return -1
+	}
+	total := 0.0
+	for _, r := range rows {
+		if len(r.Vals) > 0 {
+			total += r.Vals[0]
+		}
+	}
+	return int(total + 0.5)
+}
+
 func eq64(a, b []int64) bool {
 	if len(a) != len(b) {
 		return false
@@ -485,7 +514,7 @@ func (rr *replRun) settle() ([][]int64, error) {
 				return nil, err
 			}
 			obs = append(obs, o)
-			if !eq64(o, rr.expected(n)) {
+			if !eq64(o, rr.expected(n)) || rr.observeTPoints(n) != rr.expectedT(n, rr.whereEx) {
 				all = false
 			}
 		}
@@ -535,6 +564,9 @@ func execRepl(e *Env, c *jReplCase, wantDB bool) (*replRun, []string, error) {
 	}
 	defer cl.close()
 	rr := &replRun{c: c, cl: cl, perSrc: make([]int, c.L), snapDirs: make([][]string, len(cl.followers))}
+	if rr.whereEx, err = compileOpt(c.Table.Where); err != nil {
+		return nil, nil, err
+	}
 	c.Obs, c.Routes, c.Guard, c.Accepted = nil, nil, nil, nil
 	var dbCases []string
 	nsnap := 0
